@@ -50,14 +50,15 @@ def compare_runs(spec: dict, runs: list[dict]):
 class C05(Property):
     pid = "C05"
     title = "Workflow results do not depend on the interleaving"
-    lean_targets = ["SFV.Model.Exec", "SFV.Model.LoopComb", "SFV.Gen.StepGuards", "SFV.Props.C05", "SFV.Props.C05Steps", "SFV.Props.C05Op"]
-    props_files = ["SFV/Props/C05.lean", "SFV/Props/C05Steps.lean", "SFV/Props/C05Op.lean"]
+    lean_targets = ["SFV.Model.Exec", "SFV.Model.LoopComb", "SFV.Model.LoopNet", "SFV.Gen.StepGuards", "SFV.Props.C05", "SFV.Props.C05Steps", "SFV.Props.C05Op", "SFV.Props.C05Gather"]
+    props_files = ["SFV/Props/C05.lean", "SFV/Props/C05Steps.lean", "SFV/Props/C05Op.lean", "SFV/Props/C05Gather.lean"]
     drivers = ["Drivers/Net.lean"]
     translators = []
     rule = ("random well-formed DAG workflows (sfv.rt.wfgen; transformers with 1..3 inputs / 1..2 outputs, scatter, gather with known and "
             "unknown size and depth 2, dot products incl. parent-tag broadcast, cartesian products, conditional steps dropping or "
             "defaulting, job pipelines) run on the real StreamFlowExecutor under the default asyncio order and 3 (quick) / 8 (thorough) "
-            "PRNG interleavings each (job completion order included). Every run's per-port {tag: value} map read from token_list must "
+            "PRNG interleavings each (job completion order included; corpus: combinators with one scattered and two plain inputs under all "
+            "6 clock-controlled arrival orders and one data-forced order; a third of the random workflows with slow transformers). Every run's per-port {tag: value} map read from token_list must "
             "equal the Lean denotation `den` of the workflow (driver), whose executable well-formedness hypotheses (wfStruct, wfDyn) must "
             "hold; all runs of a workflow must agree with each other (oracle). Non-trivial = workflow with >= 3 nodes and >= 5 data "
             "tokens in total.")
@@ -86,7 +87,7 @@ class C05(Property):
     min_nontrivial = 10
 
     def _plan(self, ctx: Ctx):
-        n, k = (250, 8) if ctx.tier == "thorough" else (30, 3)
+        n, k = (250, 8) if ctx.tier == "thorough" else (36, 3)
         if ctx.mode == "search":
             n, k = n, 16
         return n, k
@@ -105,17 +106,18 @@ class C05(Property):
     def explore(self, ctx: Ctx) -> None:
         rng = ctx.rng
         n, k = self._plan(ctx)
+        CORP = wfgen.CORPUS + wfgen.ARRIVAL_CORPUS      # boundary workflows + combinators under controlled arrival orders
         lines, metas = [], []
         tfm_lines, tfm_metas = [], []
         items, pre = [], {}
         for i in range(n):
-            if i < len(wfgen.CORPUS):
-                spec = json.loads(json.dumps(wfgen.CORPUS[i]))
+            if i < len(CORP):
+                spec = json.loads(json.dumps(CORP[i]))
             feats = {"exec": 7, "scatter": 5} if rng.random() < 0.45 else ({"cart": 4, "gather": 6} if rng.random() < 0.25 else ({"loop": 3} if rng.random() < 0.25 else None))
-            if i >= len(wfgen.CORPUS):
+            if i >= len(CORP):
                 spec = wfgen.gen_spec(rng, size=rng.randint(2, 12), features=feats)
             seeds = [rng.randrange(1 << 30) for _ in range(k)]
-            if i < len(wfgen.CORPUS):
+            if i < len(CORP):
                 seeds = [2 + j for j in range(k)]      # corpus: fixed schedules, the first one with reverse job completion order
             items.append((spec, seeds))
         for i, (spec, seeds) in enumerate(items):
@@ -127,7 +129,7 @@ class C05(Property):
                 # heavily loaded machine: the plan is "up to n workflows", at least 20 (quick) / 60 (thorough), corpus included
                 ctx.notes.append(f"soft time limit: stopped after {i} of {n} planned workflows")
                 break
-            if i < len(wfgen.CORPUS):
+            if i < len(CORP):
                 ctx.corpus_replayed += 1
             runs = self._runs_for(ctx, pre, items, i, lambda it: {"spec": it[0], "seeds": it[1]}, timeout=30.0, stop_on_hang=True)
             den = wfgen.py_den(spec)
